@@ -303,6 +303,7 @@ def run(prog, chk):
     precision_rule(prog, chk, "R9")
     column_advance_rule(prog, chk, "R11")
     name_line_rule(prog, chk, "R12")
+    first_line_rule(prog, chk, "R13")
     # the writer quotes a value with whatever the analyser recommends: the analyser's evidence rule is a condition of C02 too
     from . import c18
     c18.delimiter_agreement(prog, chk)
@@ -329,6 +330,14 @@ def name_line_rule(prog, chk, rid):
                   floor=3)
     if writerrules.name_line_budget(prog, rr) < 3:
         raise Broken("fewer than 3 name emissions (container headers, loop header names) found in ciffile.c")
+
+
+def first_line_rule(prog, chk, rid):
+    from .. import writerrules
+    rr = chk.rule(rid + "-first-line-budget", "the fold decision of a text field is true for a value whose first line has exactly the "
+                  "line length: that line is written behind the opening `;` and would be one character too long", floor=1)
+    if writerrules.first_line_budget(prog, rr) < 1:
+        raise Broken("no call of write_text with a computed fold decision found")
 
 
 def column_advance_rule(prog, chk, rid):
